@@ -1166,3 +1166,27 @@ def relational_deep(W, fact, depth=0):
                 continue
         out.append(r)
     return out
+
+
+def signer_pubkey(W, t, check_body=True):
+    """If `t` is the public key bytes of a MsgSigner, the signer term: `S.public_key_bytes()` (whose body is itself of the second form, checked
+    once per run by C10) or `S.signing_key.verifying_key()` rendered with to_bytes / as_bytes / to_vec."""
+    t = values.strip_payload(W.expand(t))
+    for _ in range(6):
+        if is_call(t) and callee_name(t[1]) in ("to_vec", "as_bytes", "to_bytes", "as_ref", "as_slice", "deref", "into", "clone", "borrow", "to_owned") and t[2]:
+            t = values.strip_payload(W.expand(t[2][0]))
+        elif isinstance(t, tuple) and t and t[0] == "index" and t[2][0] == "agg" and str(t[2][1]).endswith("RangeFull::RangeFull"):
+            t = values.strip_payload(W.expand(t[1]))
+        else:
+            break
+    if is_call(t, "MsgSigner::public_key_bytes") and t[2]:
+        return t[2][0]
+    if is_call(t) and callee_name(t[1]) == "verifying_key" and "SigningKey" in t[1] and t[2]:
+        k = values.strip_payload(W.expand(t[2][0]))
+        if isinstance(k, tuple) and k and k[0] == "field" and k[2] == "signing_key":
+            return k[1]
+    if is_call(t) and callee_name(t[1]) == "from" and "VerifyingKey" in t[1] and t[2]:
+        k = values.strip_payload(W.expand(t[2][0]))
+        if isinstance(k, tuple) and k and k[0] == "field" and k[2] == "signing_key":
+            return k[1]
+    return None
